@@ -119,6 +119,15 @@ def replay_state(args):
                     err = np.max(np.abs(_model(s, Xs) - b))
                     if err > 1e-6:
                         bad.append(("C06.spaced-feasible", dict(op="spaced", kind="reproduce", nsp=n, **where0), b.tolist(), float(err), t))
+                    # the same system with intensities in a unit 1024 times larger (a power of two: exact): the spaced
+                    # solutions are the same settings, 1/1024 in numbers
+                    if n == ns[0] and np.all(np.isfinite(ub)):
+                        sc = 1024.0
+                        xm2, xM2, Xs2 = dreye.range_of_solutions(b, A * sc, lb / sc, ub / sc, K=(None if K is None else np.atleast_1d(K)), baseline=bl, n=n)
+                        Xs1 = dreye.range_of_solutions(b, A, lb, ub, K=(None if K is None else np.atleast_1d(K)), baseline=bl, n=n)[2]
+                        Xs1, Xs2 = np.asarray(Xs1, float), np.asarray(Xs2, float)
+                        if Xs1.shape != Xs2.shape or np.max(np.abs(Xs2 * sc - Xs1)) > 2e-6 * (1 + np.max(ub - lb)):      # (the insets of the sweep are themselves of relative size 1e-7)
+                            bad.append(("C06.spaced-feasible", dict(op="spaced", kind="intensity-unit twin", nsp=n, **where0), Xs1.tolist() if Xs1.size < 60 else None, (Xs2 * sc).tolist() if Xs2.size < 60 else None, t))
                 except Exception as ex:
                     bad.append(("C06.no-error", dict(op="spaced", exc=type(ex).__name__, nsp=n, dependent_columns=_dependent_columns(s), **where0), None, repr(ex)[:200], t))
     for t in boundary:
